@@ -257,9 +257,15 @@ fn exec_region(ctx: &mut Ctx, arena: &Arena, pl: &[u8], with_modules: bool) {
                     if !r.is_panic() {
                         ctx.violation("c03/adapters/no-refusal/count", || "count() returned normally on a walk that must be refused".into());
                     }
-                    let r = ctx.call("TagIter nth (refused walk)", || it.clone().nth(cap).map(|_| ()));
-                    if !r.is_panic() {
-                        ctx.violation("c03/adapters/no-refusal/nth", || "nth(beyond the walk) returned normally on a walk that must be refused".into());
+                    for k in [cap, cap + 1, cap + 2, cap + 9] {
+                        let r = ctx.call("TagIter nth (refused walk)", || it.clone().nth(k).map(|_| ()));
+                        if !r.is_panic() {
+                            ctx.violation("c03/adapters/no-refusal/nth", || format!("nth({}) returned normally on a walk that must be refused after {} tags", k, cap - 1));
+                        }
+                        let r = ctx.call("TagIter skip (refused walk)", || it.clone().skip(k).next().map(|_| ()));
+                        if !r.is_panic() {
+                            ctx.violation("c03/adapters/no-refusal/skip", || format!("skip({}).next() returned normally on a walk that must be refused after {} tags", k, cap - 1));
+                        }
                     }
                 }
                 // adapters the iterator type may override: count, last, size_hint, skip, step_by, fold
